@@ -332,11 +332,12 @@ def run_scenario(sc, work, seed):
         embed = bool(run.get("embed", False))
         limobj = st.limiter()
         lim_n = getattr(limobj, "_max_empty_lines", None) if limobj is not None else None
-        optkey = json.dumps([lang, run.get("langopts") or {}, tpl, run.get("pps") or {}, bool(run.get("tap", True)), omit], sort_keys=True)
+        optkey = "s%d|%s" % (sc["sid"], json.dumps([lang, run.get("langopts") or {}, run.get("pps") or {}, bool(run.get("tap", True)), omit], sort_keys=True))
+        tplkey = tpl["id"] if tpl["id"] == "builtin" else json.dumps(tpl, sort_keys=True)
         produced = []
         state = {"ord": 0}
 
-        def on_file(p, _ri=ri, _run=run, _pathmap=pathmap, _st=st, _produced=produced, _state=state, _lang=lang, _optkey=optkey,
+        def on_file(p, _ri=ri, _run=run, _pathmap=pathmap, _st=st, _produced=produced, _state=state, _lang=lang, _optkey=optkey, _tplkey=tplkey,
                     _lim_n=lim_n, _limobj=limobj, _embed=embed):
             t = _pathmap.get(str(p))
             flags, eb, ub = _st.flags, _st.eb, _st.ub
@@ -355,7 +356,7 @@ def run_scenario(sc, work, seed):
             obs = 1 if lim_on and flags and isinstance(eb, int) and isinstance(ea, int) else 0
             ev = {
                 "sid": sc["sid"], "seed": seed, "run": _ri, "ord": _state["ord"], "type": tn, "lang": _lang, "tpl": tpl["id"],
-                "key": _sha(json.dumps([sc["sid"], _optkey, tn, closure_hash(t, src_cache)]))[:32],
+                "tkey": "%s#%s" % (tn, closure_hash(t, src_cache)), "templates": _tplkey, "options": _optkey,
                 "digest": _sha(text)[:32],
                 "lim": {"on": lim_on, "obs": obs, "n": _lim_n if lim_on else 0, "eb": eb if obs else 0, "ea": ea if obs else 0,
                         "step": 1 if obs and len(flags) <= 4000 else 0, "raw": rle(flags) if obs and len(flags) <= 4000 else [],
@@ -385,7 +386,7 @@ def run_scenario(sc, work, seed):
                 if tn not in produced:
                     events.append({
                         "sid": sc["sid"], "seed": seed, "run": ri, "ord": state["ord"], "type": tn, "lang": lang, "tpl": tpl["id"],
-                        "key": _sha(json.dumps([sc["sid"], optkey, tn, closure_hash(t, src_cache)]))[:32],
+                        "tkey": "%s#%s" % (tn, closure_hash(t, src_cache)), "templates": tplkey, "options": optkey,
                         "digest": "!exc:" + type(exc).__name__, "exc": "".join(traceback.format_exception_only(type(exc), exc))[-300:],
                         "lim": {"on": 0, "obs": 0, "n": 0, "eb": 0, "ea": 0, "step": 0, "raw": [], "kept": 0},
                         "uq": {"obs": 0, "ub": 0, "un": 0, "exp": 0}, "nh": {},
@@ -762,13 +763,21 @@ def execute(ctx, scenarios, seeds, tag):
             r = json.loads(ln)
             if isinstance(r["result"], dict):
                 raise MachineryFailure("scenario %s could not be executed: %s" % (r["sid"], r["result"].get("error")))
-            res.setdefault(r["sid"], []).extend(r["result"])
+            res.setdefault(r["sid"], []).extend(finish_event(e) for e in r["result"])
         of.unlink()
         jf.unlink()
     return res
 
 
-TL_FIELDS = ("id", "key", "digest", "lim", "uq")
+TL_FIELDS = ("id", "type", "templates", "options", "digest", "lim", "uq")
+
+
+def finish_event(ev):
+    """T-layer field names; `key` (python side, for grouping only) is the same triple the T-layer forms"""
+    ev["type_name"] = ev["type"]
+    ev["type"] = ev.pop("tkey")
+    ev["key"] = _sha(json.dumps([ev["type"], ev["templates"], ev["options"]]))[:32]
+    return ev
 
 
 NORM_NAMES = {1: "blank-lines", 2: "unique-names", 4: "include-list", 8: "pickled-model"}
@@ -898,17 +907,17 @@ def judge(ctx, scen_by_sid, events_by_sid, seeds_by_sid):
             for cls in diff_classes(ref, ev):
                 sig = "C10|sib.digest|%s|%s|%s" % (ev["lang"], ev["tpl"], cls)
                 what = ("%s file of %s (%s templates) differs between %s and %s of one scenario [kind of lines that differ: %s]%s"
-                        % (ev["lang"], ev["type"], ev["tpl"], describe(sc, ref), describe(sc, ev), cls,
+                        % (ev["lang"], ev["type_name"], ev["tpl"], describe(sc, ref), describe(sc, ev), cls,
                            (" " + (ev.get("exc") or ref.get("exc") or "")) if cls == "exception" else ""))
                 case = {"scenario": sc, "seeds": sorted(set(seeds_by_sid.get(ev["sid"], [ev["seed"]]))),
-                        "pair": [{k: v for k, v in e.items() if k in ("run", "ord", "type", "digest", "seed", "toks", "lim", "uq")} for e in (ref, ev)]}
+                        "pair": [{k: v for k, v in e.items() if k in ("run", "ord", "type_name", "type", "digest", "seed", "toks", "lim", "uq")} for e in (ref, ev)]}
                 ctx.violation(sig, what, case)
         elif clause.startswith("drift."):
             k = "%s %s/%s" % (clause, ev["lang"], ev["tpl"])
             ndrift.setdefault(k, [0, ev])
             ndrift[k][0] += 1
     for k, (n, ev) in sorted(ndrift.items()):
-        ctx.drift("%s: %d files (e.g. %s of scenario %d run %d: lim=%s uq=%s)" % (k, n, ev["type"], ev["sid"], ev["run"],
+        ctx.drift("%s: %d files (e.g. %s of scenario %d run %d: lim=%s uq=%s)" % (k, n, ev["type_name"], ev["sid"], ev["run"],
                                                                              {x: ev["lim"][x] for x in ("n", "eb", "ea", "kept")}, ev["uq"]))
     return rej, by_id
 
@@ -934,7 +943,7 @@ def compare_expected(ctx, sc, evs, rej, perturb=None):
             if perturb is not None and perturb == (ri, fi):
                 want = want + [["E"]]
             got = ev.get("toks")
-            if ev["type"] != "mr.A%d.1.0" % t or got != want:
+            if ev["type_name"] != "mr.A%d.1.0" % t or got != want:
                 mism.append((ri, ev, "model expects %s, code wrote %s" % (json.dumps(want), json.dumps(got))))
     return mism
 
@@ -1049,7 +1058,7 @@ def run(ctx):
     allexc = [k for k, v in occ.items() if all(x["digest"].startswith("!exc") for x in v)]
     if allexc:
         e = occ[allexc[0]][0]
-        raise MachineryFailure("generation failed in every history for %d keys, e.g. %s %s: %s" % (len(allexc), e["lang"], e["type"], e.get("exc")))
+        raise MachineryFailure("generation failed in every history for %d keys, e.g. %s %s: %s" % (len(allexc), e["lang"], e["type_name"], e.get("exc")))
 
     rej, by_id = judge(ctx, scen, events, seeds_by_sid)
 
@@ -1103,9 +1112,9 @@ def run(ctx):
 
     # ---- evidence --------------------------------------------------------------------------------------------------------------
     smp = next(e for e in by_id.values() if e["tpl"] == "mirror" and e["lim"]["obs"])
-    ctx.sample({"direction": "code->spec", "event": {k: smp[k] for k in ("sid", "run", "ord", "type", "lang", "key", "digest", "lim", "uq", "toks")}})
+    ctx.sample({"direction": "code->spec", "event": {k: smp[k] for k in ("sid", "run", "ord", "type", "templates", "options", "lang", "digest", "lim", "uq", "toks")}})
     smp2 = next(e for e in by_id.values() if e["tpl"] == "builtin")
-    ctx.sample({"direction": "code->spec", "event": {k: smp2[k] for k in ("sid", "run", "ord", "type", "lang", "key", "digest", "lim", "uq")}})
+    ctx.sample({"direction": "code->spec", "event": {k: smp2[k] for k in ("sid", "run", "ord", "type", "templates", "options", "lang", "digest", "lim", "uq")}})
     msamp = next(scen[s] for s in sorted(scen) if scen[s]["kind"] == "model")
     ctx.sample({"direction": "spec->code", "scenario": {k: msamp[k] for k in ("tpl", "runs", "expect")}})
     ctx.cov["scenarios"] = {"predicted_defect": n_pred, "model_histories": n_model, "random": n_rand, "second_hash_seed": len(part_b),
